@@ -17,6 +17,7 @@ from vt import glue, irsem, shapex
 from vt.common import HarnessError
 
 from hail.ir.renderer import CSERenderer, PlainRenderer  # noqa: E402  (loader installed by C35_shapes)
+from hail.expr.expressions.base_expression import ExpressionException as _ExprExc  # noqa: E402
 
 
 class _NoDb:
@@ -25,32 +26,33 @@ class _NoDb:
 
 
 def leaves_env():
-    def arr(name, w):
-        return ('a', [(z3.Bool(f'{name}_has0'), ('i', z3.BitVec(f'{name}_0', w))),
-                      (z3.Bool(f'{name}_has1'), ('i', z3.BitVec(f'{name}_1', w)))])
+    def arr(name, w, n=2):
+        return ('a', [(z3.Bool(f'{name}_has{i}'), ('i', z3.BitVec(f'{name}_{i}', w))) for i in range(n)])
     return {'x': ('i', z3.BitVec('x', 32)), 'p': ('b', z3.Bool('p')), 'A': arr('A', 32),
-            'y': ('i', z3.BitVec('y', 64)), 'B': arr('B', 64)}
+            'y': ('i', z3.BitVec('y', 64)), 'B': arr('B', 64), 'C': arr('C', 64, 3)}
 
 
-LEAF_VARS = ['x', 'p', 'y', 'A_has0', 'A_has1', 'A_0', 'A_1', 'B_has0', 'B_has1', 'B_0', 'B_1']
+LEAF_VARS = ['x', 'p', 'y', 'A_has0', 'A_has1', 'A_0', 'A_1', 'B_has0', 'B_has1', 'B_0', 'B_1',
+             'C_has0', 'C_has1', 'C_has2', 'C_0', 'C_1', 'C_2']
 
 
 def leaves_from_values(vals):
     """concrete leaf environment from a replay dict"""
-    def arr(name, w):
+    def arr(name, w, n=2):
         return ('a', [(z3.BoolVal(bool(vals.get(f'{name}_has{i}', False))),
-                       ('i', z3.BitVecVal(int(vals.get(f'{name}_{i}', 0)), w))) for i in (0, 1)])
+                       ('i', z3.BitVecVal(int(vals.get(f'{name}_{i}', 0)), w))) for i in range(n)])
     return {'x': ('i', z3.BitVecVal(int(vals.get('x', 0)), 32)), 'p': ('b', z3.BoolVal(bool(vals.get('p', False)))),
-            'A': arr('A', 32), 'y': ('i', z3.BitVecVal(int(vals.get('y', 0)), 64)), 'B': arr('B', 64)}
+            'A': arr('A', 32), 'y': ('i', z3.BitVecVal(int(vals.get('y', 0)), 64)), 'B': arr('B', 64),
+            'C': arr('C', 64, 3)}
 
 
 def known_class(root):
     """Finding classes as predicates over the shape (all concrete per explored path)."""
     for n in S.nodes_of(root):
-        if n.kind in ('SAGG', 'SSCAN'):
+        if n.kind in S.SAGG_KINDS + S.SSCAN_KINDS:
             outer_eval = eval_names(n.ops[1]) - set(n.names)
             if outer_eval:
-                return ('cse-streamagg-body-eval-freevars-dropped' if n.kind == 'SAGG' else
+                return ('cse-streamagg-body-eval-freevars-dropped' if n.kind in S.SAGG_KINDS else
                         'cse-streamaggscan-body-eval-freevars-dropped')
     return None
 
@@ -74,7 +76,7 @@ def collision_candidate(root):
             return
         for i, o in enumerate(n.ops):
             if isinstance(o, S.Node) and ((n.kind in ('IF', 'IFL') and i in (1, 2)) or (
-                    n.kind in ('SAGG', 'SSCAN') and i == 1)):
+                    n.kind in S.SAGG_KINDS + S.SSCAN_KINDS and i == 1)):
                 blockchild.add(id(o))
             walk(o)
     walk(root)
@@ -126,10 +128,10 @@ def eval_names(n):
         return set() if n.name in ('c', 'd') else {n.name[-1]}
     out = set()
     for i, o in enumerate(n.ops):
-        if n.kind in ('SUM', 'SCAN', 'AGGF', 'SCANF') and i == 0:
+        if n.kind in S.SEQ_SLOT0 and i == 0:
             continue
         r = eval_names(o)
-        if n.kind in ('SAGG', 'SSCAN') and i == 1:
+        if n.kind in S.SAGG_KINDS + S.SSCAN_KINDS and i == 1:
             # what the inner aggregation's seq args use is an eval use of the enclosing scope
             r = (r | seq_names(o)) - set(n.names)
         elif n.names and i == len(n.ops) - 1:
@@ -143,9 +145,9 @@ def seq_names(n):
         return set()
     out = set()
     for i, o in enumerate(n.ops):
-        if n.kind in ('SUM', 'SCAN', 'AGGF', 'SCANF') and i == 0:
+        if n.kind in S.SEQ_SLOT0 and i == 0:
             out |= eval_names(o)
-        elif n.kind in ('SAGG', 'SSCAN') and i == 1:
+        elif n.kind in S.SAGG_KINDS + S.SSCAN_KINDS and i == 1:
             continue
         else:
             out |= seq_names(o)
@@ -155,7 +157,13 @@ def seq_names(n):
 def analyse(root, env, strict, strict_eval_all=False, api=False):
     """Render with both real renderers, read and evaluate both texts.
     Returns dict(kind=..., differs=z3 Bool or True, ...)."""
-    x = S.to_expr(root)._ir if api else S.to_ir(root)
+    if api:
+        try:
+            x = (S.to_expr_agg(root) if isinstance(root, S.Node) and root.idx == 0 else S.to_expr(root))._ir
+        except _ExprExc:
+            raise S.DeadEnd()        # the public API refuses this shape: not a program
+    else:
+        x = S.to_ir(root)
     plain = PlainRenderer()(x)
     try:
         cse = CSERenderer()(x)
@@ -252,7 +260,7 @@ def _witness(o, m, family, n, shadow, api=False):
     vals = {}
     for nm in LEAF_VARS:
         var = z3.Bool(nm) if (nm == 'p' or '_has' in nm) else (
-            z3.BitVec(nm, 64 if nm in ('y', 'B_0', 'B_1') else 32))
+            z3.BitVec(nm, 64 if nm in ('y', 'B_0', 'B_1', 'C_0', 'C_1', 'C_2') else 32))
         mv = m.eval(var, model_completion=True)
         vals[nm] = z3.is_true(mv) if z3.is_bool(mv) else _signed(mv)
     v = o.value
@@ -291,7 +299,11 @@ def run_shard(family, n, shadow, pins, batch=300, timeout_ms=120000, max_cex=12,
         except S.DeadEnd:
             stats['dead'] += 1
             raise glue.PathAbort('dead end')
-        r = analyse(root, env, strict, api=api)
+        try:
+            r = analyse(root, env, strict, api=api)
+        except S.DeadEnd:
+            stats['dead'] += 1
+            raise glue.PathAbort('refused by the API')
         r['choices'] = list(seq)
         r['shape'] = repr(root)
         r['cls'] = classify(root, r)
